@@ -521,13 +521,14 @@ class ProgGen:
     """Generator of program specs.  `clean=True`: no function raises and every tasklet operation is valid
     (the run can complete); `clean=False`: raising functions and invalid tasklet operations may occur."""
 
-    def __init__(self, rng, ntasks, clean=True, rich=0.6, p_raise=0.0, use_map=False, chainy=0.5):
+    def __init__(self, rng, ntasks, clean=True, rich=0.6, p_raise=0.0, use_map=False, chainy=0.5, map_heavy=False):
         self.rng = rng
         self.n = ntasks
         self.clean = clean
         self.rich = rich
         self.p_raise = p_raise
-        self.use_map = use_map
+        self.use_map = use_map or map_heavy
+        self.map_heavy = map_heavy
         self.chainy = chainy
         self.fns = {}
         self.tasks = []
@@ -620,6 +621,13 @@ class ProgGen:
             return ['getitem', base, ['val', ['i', 0]]]
         return ['fun', base, ['wrap']]
 
+    def gen_bound(self, ln):
+        """a slice bound: absent, or any position from beyond the left end to beyond the right end"""
+        rng = self.rng
+        if rng.random() < 0.35:
+            return None
+        return rng.randrange(-ln - 1, ln + 2)
+
     def gen_mapped(self, i):
         rng = self.rng
         ms = [m for m in self.maps if all(b < i for b in m[0])]
@@ -627,22 +635,27 @@ class ProgGen:
             return self.gen_task(i)
         blocks, bs, ln = rng.choice(ms)
         r = rng.random()
-        if r < 0.3:
+        if r < 0.2:
             return ['mapseq', blocks, bs, ln]
-        if r < 0.45:
+        if r < 0.3:
             return ['mapitem', blocks, bs, ln, rng.randrange(-ln, ln)]
-        rb = [None] + list(range(-ln - 1, ln + 2))
-        sls = [[rng.choice(rb), rng.choice(rb), rng.choice([None, 1, 2, -1, -2])]]
+        if r < 0.45:
+            # a chunk as jug.mapreduce._break_up cuts it when a mapped sequence is mapped again: seq[k*step:(k+1)*step]
+            step = rng.choice([1, 2, 3, 4])
+            k = rng.randrange((ln + step - 1) // step)
+            return ['mapslice', blocks, bs, ln, [[k * step, (k + 1) * step, None]]]
+        sls = [[self.gen_bound(ln), self.gen_bound(ln), rng.choice([None, None, 1, 2, 3, -1, -1, -2])]]
         k = len(range(ln)[slice(*sls[0])])
-        if k > 0 and rng.random() < 0.35:
-            rb2 = [None] + list(range(-k - 1, k + 2))
-            sls.append([rng.choice(rb2), rng.choice(rb2), rng.choice([None, 1, 2, -1])])
+        if k > 0 and rng.random() < 0.3:
+            sls.append([self.gen_bound(k), self.gen_bound(k), rng.choice([None, 1, 2, -1])])
         return ['mapslice', blocks, bs, ln, sls]
 
     def gen_arg(self, i, depth=2):
         rng = self.rng
         if i == 0:
             return ['val', _gen_plain(rng, 1)]
+        if self.map_heavy and self.maps and rng.random() < 0.45:
+            return self.gen_mapped(i)
         r = rng.random()
         if r > self.rich:
             return self.gen_task(i) if rng.random() < 0.8 else ['val', _gen_plain(rng, 1)]
@@ -672,8 +685,10 @@ class ProgGen:
     def generate(self):
         rng = self.rng
         if self.use_map and self.n >= 3:
-            bs = rng.choice([2, 3])
+            bs = rng.choice([2, 3, 4] if self.map_heavy else [2, 3])
             nb = rng.choice([1, 2]) if self.n >= 4 else 1
+            if self.map_heavy and self.n >= 4:
+                nb = rng.choice([2, 2, 3]) if self.n >= 5 else 2
             last = rng.randint(1, bs)
             blocks = []
             for b in range(nb):
@@ -934,6 +949,9 @@ class Policy:
         # stall_at: [worker index, op kind, number of steps, occurrence] - park that worker when it is about to do `kind`
         self.stall_at = [[self.wids[s[0]], s[1], s[2], s[3] if len(s) > 3 else 0, None] for s in desc.get('stall_at', []) if s[0] < len(self.wids)]
         self.seen_kind = {}
+        # stall_task: [op kind, task id, number of steps] - whoever is about to do `kind` on that task is parked (once)
+        self.stall_task = [[st[0], st[1], st[2], False] for st in desc.get('stall_task', [])]
+        self.parked_until = {}
         # inject: [worker index, n-th scheduling point of that worker, action]
         self.inject = {(self.wids[k], n): act for k, n, act in desc.get('inject', []) if k < len(self.wids)}
         # inject_kind: [worker index, op kind, occurrence, action]
@@ -952,6 +970,8 @@ class Policy:
         for s in self.stall_at:
             if s[0] == w.wid and s[4] is not None and step < s[4]:
                 return True
+        if self.parked_until.get(w.wid, 0) > step:
+            return True
         return False
 
     def observe(self, parked, step):
@@ -968,6 +988,10 @@ class Policy:
             for s in self.stall_at:
                 if s[0] == w.wid and s[1] == w.pending[0] and s[3] == occ and s[4] is None:
                     s[4] = step + s[2]
+            for st in self.stall_task:
+                if not st[3] and st[0] == w.pending[0] and st[1] == w.pending[1]:
+                    st[3] = True
+                    self.parked_until[w.wid] = step + st[2]
 
     def action_for(self, w):
         act = self.inject.get((w.wid, w.npoints - 1))
